@@ -1,70 +1,656 @@
 """
-T2 facts for C16 (zonal.regions / _area_connectivity), regenerated from /repo on every run:
+T2 facts for C16 (zonal.regions / _area_connectivity), regenerated from /repo on every run.
 
-  * the clamped window of both passes: for `n == 8` and the else branch, the index expressions of
-    `src_window[i] = data[..., ...]` and `area_window[i] = out[..., ...]` in index order, each
-    expression classified as  max(k-1,0) -> D.m,  k -> D.z,  min(k+1,n-1) -> D.p  (k = y with rows,
-    x with cols).  Props/C16.lean proves the model's `window8` / `window4` equal these lists.
-  * the closeness test and its constants, the initial uid, the "already labelled" test of pass 1;
-  * the wrapper: validation guard, the kernel call, and where name/dims/coords/attrs come from.
+The facts are *normal forms*, not source text: an expression is first resolved (a local name is replaced by
+the expression it was bound to when that is syntactically evident, see `Fn.resolve`), then the remaining local
+names are renamed by their *role* (see `kernel_roles`), then a few meaning-preserving spellings are
+normalised (`canon`).  So hoisting / inlining a constant, introducing a temporary for a sub-expression,
+renaming a local, `range(0, n)` vs `range(n)`, mirrored comparisons, swapped operands of `+` / `*`,
+`np.absolute` vs `np.abs`, keyword order ... leave the facts unchanged, while a changed tolerance, window
+offset, comparison operator, guard or kernel argument changes them.  The rule is: normalise only what is
+evident from the syntax, never guess -- a local name that is neither resolved nor has a role is printed as
+`?name` (which no theorem accepts), an unrecognised shape is a `problem` (`ok = False` in the report).
 
-Anything not recognised is emitted as a value the theorems cannot accept (and `ok=False` in the report).
+Facts (Props/C16.lean pins them):
+  * regionsWindows8 / regionsWindows4: for both passes, the index expressions of `src[i] = data[ey, ex]` and
+    `area[i] = out[ey, ex]` in the `n == 8` branch resp. the other one, in index order, each classified as
+    max(k-1,0) -> D.m,  k -> D.z,  min(k+1,size-1) -> D.p  (k = y with rows, x with cols).  The two arrays are
+    identified by what is stored into them (cells of `data` resp. `out`), not by their names.
+  * regionsIsClose: per pass the argument of `np.where(...)[0]`, i.e. the closeness test with its constants;
+  * regionsNanGuard: per pass the guard on a NaN centre cell (test -> body);
+  * regionsLabelledTest (pass 1: when a window cell counts as labelled), regionsUid0;
+  * the wrapper: validation guard, what the kernel runs on (and the conditional int64 widening), the kernel's
+    other arguments, and where data/name/dims/coords/attrs of the returned DataArray come from.
 """
 import ast
+import copy
 import os
 
 from translate import find_func, lean_str, str_list
 
 REL = "xrspatial/zonal.py"
 
+PURE_BUILTINS = {"len", "range", "min", "max", "abs", "int", "float", "bool", "isinstance", "type", "tuple", "round"}
+ABS_NAMES = {"np.abs", "np.absolute", "numpy.abs", "numpy.absolute"}
+ISNAN_NAMES = {"np.isnan", "numpy.isnan"}
 
-def classify(e, var, size):
-    s = ast.unparse(e).replace(" ", "")
+
+# ---------------------------------------------------------------- analysis of one function
+def target_names(t):
+    """names bound or mutated by assigning to target `t`"""
+    if isinstance(t, ast.Name):
+        return {t.id}
+    if isinstance(t, (ast.Tuple, ast.List)):
+        out = set()
+        for e in t.elts:
+            out |= target_names(e)
+        return out
+    if isinstance(t, ast.Starred):
+        return target_names(t.value)
+    if isinstance(t, (ast.Subscript, ast.Attribute)):
+        b = t
+        while isinstance(b, (ast.Subscript, ast.Attribute)):
+            b = b.value
+        return {b.id} if isinstance(b, ast.Name) else {"*"}
+    return {"*"}
+
+
+class Fn:
+    def __init__(self, f):
+        self.f = f
+        self.where = {}         # statement -> (owner statement or the function, block, index)
+        self.params = [a.arg for a in f.args.posonlyargs + f.args.args + f.args.kwonlyargs]
+        if f.args.vararg:
+            self.params.append(f.args.vararg.arg)
+        if f.args.kwarg:
+            self.params.append(f.args.kwarg.arg)
+        self._index(f)
+        self.local = set(self.params)
+        for st in ast.walk(f):
+            if not isinstance(st, ast.Call):
+                self.local |= {n for n in self._binds_here(st) if n != "*"}
+        self._bind_cache = {}
+
+    def nbind(self, name, root=None):
+        """number of binding / mutating nodes for `name` below `root` (default: the whole function)"""
+        return sum(1 for st in ast.walk(root or self.f) if not isinstance(st, ast.Call) and name in self._binds_here(st))
+
+    def innermost_stmt(self, node):
+        best = None
+        for st in self.where:
+            if any(n is node for n in ast.walk(st)):
+                if best is None or any(n is st for n in ast.walk(best)):
+                    best = st
+        return best
+
+    def _index(self, owner):
+        for field in ("body", "orelse", "finalbody"):
+            block = getattr(owner, field, None)
+            if isinstance(block, list):
+                for i, st in enumerate(block):
+                    if isinstance(st, ast.stmt):
+                        self.where[st] = (owner, block, i)
+                        self._index(st)
+        for h in getattr(owner, "handlers", []) or []:
+            self._index(h)
+
+    def _binds_here(self, n):
+        """names bound / possibly mutated by node `n` itself (not its children)"""
+        if isinstance(n, ast.Assign):
+            out = set()
+            for t in n.targets:
+                out |= target_names(t)
+            return out
+        if isinstance(n, (ast.AugAssign, ast.AnnAssign)):
+            return target_names(n.target)
+        if isinstance(n, (ast.For, ast.AsyncFor)):
+            return target_names(n.target)
+        if isinstance(n, ast.NamedExpr):
+            return target_names(n.target)
+        if isinstance(n, (ast.With, ast.AsyncWith)):
+            out = set()
+            for it in n.items:
+                if it.optional_vars is not None:
+                    out |= target_names(it.optional_vars)
+            return out
+        if isinstance(n, ast.Delete):
+            out = set()
+            for t in n.targets:
+                out |= target_names(t)
+            return out
+        if isinstance(n, (ast.Import, ast.ImportFrom)):
+            return {(a.asname or a.name).split(".")[0] for a in n.names}
+        if isinstance(n, (ast.FunctionDef, ast.AsyncFunctionDef, ast.ClassDef)) and n is not self.f:
+            return {n.name, "*"}
+        if isinstance(n, ast.ExceptHandler):
+            return {n.name} if n.name else set()
+        if isinstance(n, (ast.Global, ast.Nonlocal)):
+            return {"*"}
+        if isinstance(n, ast.Call):
+            # a method call on a local object, or a local object handed to a function that is not known to be pure,
+            # may change that object
+            out = set()
+            fn = n.func
+            root = fn
+            while isinstance(root, ast.Attribute):
+                root = root.value
+            fname = ast.unparse(fn)
+            pure = (isinstance(fn, ast.Name) and fn.id in PURE_BUILTINS and fn.id not in self.local) or \
+                   (isinstance(fn, ast.Attribute) and isinstance(root, ast.Name) and root.id in ("np", "numpy", "math")
+                    and root.id not in self.local)
+            if isinstance(fn, ast.Attribute) and isinstance(root, ast.Name) and root.id not in ("np", "numpy", "math"):
+                if fname.split(".")[-1] not in ("astype", "copy", "item", "sum", "min", "max", "any", "all"):
+                    out.add(root.id)
+                pure = True         # the receiver is handled; arguments of a method call are not followed further
+            if not pure:
+                for a in list(n.args) + [k.value for k in n.keywords]:
+                    for m in ast.walk(a):
+                        if isinstance(m, ast.Name):
+                            out.add(m.id)
+            return out
+        return set()
+
+    def binds(self, st):
+        """names bound / possibly mutated anywhere inside statement `st`"""
+        if st not in self._bind_cache:
+            out = set()
+            for n in ast.walk(st):
+                out |= self._binds_here(n)
+            self._bind_cache[st] = out
+        return self._bind_cache[st]
+
+    # -- resolution
+    def definition(self, name, stmt):
+        """the expression `name` evidently holds when `stmt` starts: the nearest preceding `name = <expr>` in the block
+        of `stmt` or of an enclosing statement, provided nothing executed in between (conservatively: nothing
+        anywhere in the statements in between, nor in the enclosing compound statements) binds `name` or binds /
+        mutates a name read by <expr>.  None when that is not evident."""
+        between = set()
+        cur = stmt
+        while cur in self.where:
+            owner, block, idx = self.where[cur]
+            for k in range(idx - 1, -1, -1):
+                s = block[k]
+                if (isinstance(s, ast.Assign) and len(s.targets) == 1 and isinstance(s.targets[0], ast.Name)
+                        and s.targets[0].id == name):
+                    free = {n.id for n in ast.walk(s.value) if isinstance(n, ast.Name)}
+                    if "*" in between or name in between or (free & between) or name in free:
+                        return None
+                    return s.value
+                b = self.binds(s)
+                if name in b or "*" in b:
+                    return None
+                between |= b
+            if owner is self.f:
+                return None
+            between |= self.binds(owner)        # everything of the enclosing compound statement (loops re-run)
+            cur = owner
+        return None
+
+    def resolve(self, expr, stmt, stop=(), depth=0):
+        """copy of `expr` (as evaluated when `stmt` starts) with evidently defined local names replaced"""
+        fn = self
+
+        class R(ast.NodeTransformer):
+            def visit_Name(self, n):
+                if not isinstance(n.ctx, ast.Load) or n.id in stop or n.id not in fn.local or depth > 12:
+                    return n
+                d = fn.definition(n.id, stmt)
+                if d is None:
+                    return n
+                return fn.resolve(d, stmt, stop, depth + 1)
+
+            def _opaque(self, n):      # own scopes (their variables may shadow locals): nothing is replaced inside
+                return n
+
+            visit_ListComp = visit_SetComp = visit_DictComp = visit_GeneratorExp = visit_Lambda = _opaque
+
+        return R().visit(copy.deepcopy(expr))
+
+
+# ---------------------------------------------------------------- normal form of an expression
+def _s(e):
+    return ast.unparse(e)
+
+
+def _const_key(c):
+    return (type(c.value).__name__, repr(c.value))
+
+
+class Canon(ast.NodeTransformer):
+    """meaning-preserving normalisations (bottom-up) and role renaming"""
+
+    def __init__(self, rmap, local):
+        self.rmap, self.local = rmap, local
+
+    def visit_Name(self, n):
+        if n.id in self.rmap:
+            return ast.Name(id=self.rmap[n.id], ctx=n.ctx)
+        if n.id in self.local:
+            return ast.Name(id="?" + n.id, ctx=n.ctx)
+        return n
+
+    def visit_Attribute(self, n):
+        s = _s(n)
+        if s in ABS_NAMES and "np" not in self.local and "numpy" not in self.local:
+            return ast.Name(id="abs", ctx=ast.Load())
+        if s in ISNAN_NAMES and "np" not in self.local and "numpy" not in self.local:
+            return ast.Name(id="isnan", ctx=ast.Load())
+        self.generic_visit(n)
+        return n
+
+    def visit_Subscript(self, n):
+        self.generic_visit(n)
+        # data.shape[0] / data.shape[1] are rows / cols
+        if (isinstance(n.value, ast.Attribute) and n.value.attr == "shape" and isinstance(n.value.value, ast.Name)
+                and n.value.value.id == "data" and isinstance(n.slice, ast.Constant) and n.slice.value in (0, 1)
+                and "data" in self.rmap.values()):
+            return ast.Name(id=("rows", "cols")[n.slice.value], ctx=ast.Load())
+        return n
+
+    def visit_BinOp(self, n):
+        self.generic_visit(n)
+        if isinstance(n.op, (ast.Add, ast.Mult)):
+            # a + b == b + a and a * b == b * a for numbers and numeric arrays (not for sequences / strings)
+            seq = (ast.List, ast.Tuple, ast.JoinedStr, ast.ListComp)
+            if not any(isinstance(x, seq) or (isinstance(x, ast.Constant) and isinstance(x.value, (str, bytes)))
+                       for x in (n.left, n.right)):
+                if _s(n.right) < _s(n.left):
+                    n.left, n.right = n.right, n.left
+        return n
+
+    def visit_Compare(self, n):
+        self.generic_visit(n)
+        if len(n.ops) != 1:
+            return n
+        op, a, b = n.ops[0], n.left, n.comparators[0]
+        if isinstance(op, ast.Gt):
+            return ast.Compare(left=b, ops=[ast.Lt()], comparators=[a])
+        if isinstance(op, ast.GtE):
+            return ast.Compare(left=b, ops=[ast.LtE()], comparators=[a])
+        if isinstance(op, (ast.Eq, ast.NotEq)):
+            if isinstance(op, ast.NotEq) and _s(a) == _s(b):
+                return ast.Call(func=ast.Name(id="isnan", ctx=ast.Load()), args=[a], keywords=[])
+            if _s(b) < _s(a):
+                return ast.Compare(left=b, ops=[op], comparators=[a])
+        if isinstance(op, (ast.In, ast.NotIn)) and isinstance(b, (ast.Tuple, ast.List, ast.Set)) \
+                and all(isinstance(x, ast.Constant) and not isinstance(x.value, float) for x in b.elts):
+            elts = sorted(b.elts, key=_const_key)
+            return ast.Compare(left=a, ops=[op], comparators=[ast.Tuple(elts=elts, ctx=ast.Load())])
+        return n
+
+    def visit_UnaryOp(self, n):
+        self.generic_visit(n)
+        if isinstance(n.op, ast.Not) and isinstance(n.operand, ast.Compare) and len(n.operand.ops) == 1:
+            c = n.operand
+            flip = {ast.In: ast.NotIn, ast.NotIn: ast.In, ast.Eq: ast.NotEq, ast.Is: ast.IsNot, ast.IsNot: ast.Is}
+            # (not a != b is a == b only without NaN; `not <` is not `>=` with NaN: left alone)
+            for k, v in flip.items():
+                if type(c.ops[0]) is k:
+                    return ast.Compare(left=c.left, ops=[v()], comparators=c.comparators)
+        return n
+
+    def visit_BoolOp(self, n):
+        self.generic_visit(n)
+        # a != c1 and a != c2 ...  ->  a not in (c1, c2, ...)     (integer / string constants only)
+        if isinstance(n.op, ast.And) and len(n.values) >= 2:
+            subj, consts = None, []
+            for v in n.values:
+                if not (isinstance(v, ast.Compare) and len(v.ops) == 1 and isinstance(v.ops[0], ast.NotEq)):
+                    return n
+                a, b = v.left, v.comparators[0]
+                if isinstance(a, ast.Constant):
+                    a, b = b, a
+                if not (isinstance(b, ast.Constant) and isinstance(b.value, (int, str)) and not isinstance(b.value, bool)):
+                    return n
+                if subj is None:
+                    subj = a
+                elif _s(a) != _s(subj):
+                    return n
+                consts.append(b)
+            if not isinstance(subj, (ast.Name, ast.Attribute)):
+                return n
+            return ast.Compare(left=subj, ops=[ast.NotIn()],
+                               comparators=[ast.Tuple(elts=sorted(consts, key=_const_key), ctx=ast.Load())])
+        return n
+
+
+def canon(fn, expr, stmt, rmap, stop=None):
+    """normal form (a string) of `expr` as evaluated when `stmt` starts"""
+    stop = (set(rmap) - set(fn.params)) if stop is None else stop
+    e = fn.resolve(expr, stmt, stop)
+    e = Canon(rmap, fn.local).visit(e)
+    ast.fix_missing_locations(e)
+    return ast.unparse(e)
+
+
+def canon_stmt(fn, st, rmap):
+    if isinstance(st, ast.Assign) and len(st.targets) == 1:
+        t = Canon(rmap, fn.local).visit(fn.resolve_target(st.targets[0], st, set(rmap) - set(fn.params)))
+        return f"{ast.unparse(t)} = {canon(fn, st.value, st, rmap)}"
+    if isinstance(st, ast.Continue):
+        return "continue"
+    if isinstance(st, ast.Break):
+        return "break"
+    if isinstance(st, ast.Pass):
+        return "pass"
+    return "?" + ast.unparse(st)
+
+
+def _resolve_target(self, t, stmt, stop):
+    """a store target: the indices are resolved, the stored-to name is not"""
+    t = copy.deepcopy(t)
+    if isinstance(t, ast.Subscript):
+        t.slice = self.resolve(t.slice, stmt, stop)
+    return t
+
+
+Fn.resolve_target = _resolve_target
+
+
+# ---------------------------------------------------------------- shapes of _area_connectivity
+def range_bound(it):
+    """`range(e)` / `range(0, e)` / `range(0, e, 1)` -> e"""
+    if not (isinstance(it, ast.Call) and isinstance(it.func, ast.Name) and it.func.id == "range" and not it.keywords):
+        return None
+    a = it.args
+    if len(a) == 1:
+        return a[0]
+    if len(a) in (2, 3) and isinstance(a[0], ast.Constant) and a[0].value == 0 and type(a[0].value) is int:
+        if len(a) == 3 and not (isinstance(a[2], ast.Constant) and a[2].value == 1 and type(a[2].value) is int):
+            return None
+        return a[1]
+    return None
+
+
+def classify(s, var, size):
+    s = s.replace(" ", "")
     if s == var:
         return "D.z"
-    if s in (f"max({var}-1,0)", f"max(0,{var}-1)"):
+    if s in (f"max({var}-1,0)", f"max(0,{var}-1)", f"max(-1+{var},0)", f"max(0,-1+{var})"):
         return "D.m"
-    if s in (f"min({var}+1,{size}-1)", f"min({size}-1,{var}+1)"):
+    if s in (f"min({var}+1,{size}-1)", f"min({size}-1,{var}+1)", f"min(1+{var},{size}-1)", f"min({size}-1,1+{var})",
+             f"min({var}+1,-1+{size})", f"min(-1+{size},{var}+1)", f"min(1+{var},-1+{size})", f"min(-1+{size},1+{var})"):
         return "D.p"
     return None
 
 
-def window_of(stmts, target, source):
-    """[(index, dy, dx)] of `target[i] = source[ey, ex]` in the statement list"""
-    found = {}
-    bad = []
+def window_stores(fn, stmts, rmap, problems, where):
+    """{'data': (array name, [(dy,dx)..]), 'out': (...)} from the stores `T[i] = data[ey, ex]` / `T[i] = out[ey, ex]`
+    among the statements (a branch of the `n == 8` test)"""
+    inv = {v: k for k, v in rmap.items()}
+    found = {"data": {}, "out": {}}
+    arrays = {"data": set(), "out": set()}
     for st in stmts:
-        if not (isinstance(st, ast.Assign) and len(st.targets) == 1):
+        if not (isinstance(st, ast.Assign) and len(st.targets) == 1 and isinstance(st.targets[0], ast.Subscript)):
+            problems.append(f"{where}: unexpected statement `{ast.unparse(st)}`")
             continue
         t = st.targets[0]
-        if not (isinstance(t, ast.Subscript) and isinstance(t.value, ast.Name) and t.value.id == target):
+        v = fn.resolve(st.value, st, set(rmap) - set(fn.params))
+        if not (isinstance(t.value, ast.Name) and isinstance(v, ast.Subscript) and isinstance(v.value, ast.Name)
+                and v.value.id in (inv.get("data"), inv.get("out")) and isinstance(v.slice, ast.Tuple) and len(v.slice.elts) == 2):
+            problems.append(f"{where}: unrecognised store `{ast.unparse(st)}`")
             continue
-        v = st.value
-        if not (isinstance(t.slice, ast.Constant) and isinstance(v, ast.Subscript) and isinstance(v.value, ast.Name)
-                and v.value.id == source and isinstance(v.slice, ast.Tuple) and len(v.slice.elts) == 2):
-            bad.append(ast.unparse(st))
+        idx = fn.resolve(t.slice, st, set(rmap) - set(fn.params))
+        if not (isinstance(idx, ast.Constant) and type(idx.value) is int and idx.value >= 0):
+            problems.append(f"{where}: index of `{ast.unparse(st)}` is not a literal")
             continue
-        dy = classify(v.slice.elts[0], "y", "rows")
-        dx = classify(v.slice.elts[1], "x", "cols")
+        src = "data" if v.value.id == inv.get("data") else "out"
+        ey = ast.unparse(Canon(rmap, fn.local).visit(v.slice.elts[0]))
+        ex = ast.unparse(Canon(rmap, fn.local).visit(v.slice.elts[1]))
+        dy, dx = classify(ey, "y", "rows"), classify(ex, "x", "cols")
         if dy is None or dx is None:
-            bad.append(ast.unparse(st))
+            problems.append(f"{where}: offsets of `{ast.unparse(st)}` not recognised ({ey}, {ex})")
             continue
-        found[t.slice.value] = (dy, dx)
-    n = len(found)
-    if sorted(found) != list(range(n)):
-        bad.append(f"indices {sorted(found)}")
-    return [found[i] for i in sorted(found)], bad
-
-
-def find_n8_if(loop):
-    for n in ast.walk(loop):
-        if isinstance(n, ast.If) and ast.unparse(n.test).replace(" ", "") == "n==8":
-            return n
-    return None
+        arrays[src].add(t.value.id)
+        found[src][idx.value] = (dy, dx)
+    out = {}
+    for src in ("data", "out"):
+        if len(arrays[src]) > 1:
+            problems.append(f"{where}: cells of {src} are stored into several arrays {sorted(arrays[src])}")
+        if sorted(found[src]) != list(range(len(found[src]))):
+            problems.append(f"{where}: indices {sorted(found[src])}")
+        out[src] = (sorted(arrays[src])[0] if arrays[src] else None, [found[src][i] for i in sorted(found[src])])
+    if out["data"][0] is not None and out["data"][0] == out["out"][0]:
+        problems.append(f"{where}: cells of data and of out go into the same array")
+    return out
 
 
 def lean_window(w):
     return "[" + ", ".join(f"({a}, {b})" for a, b in w) + "]"
+
+
+def kernel_facts(f, problems):
+    fn = Fn(f)
+    w8, w4, isclose, nanguard, labelled, uid0 = [], [], [], [], [], "?"
+    base = {}
+    if len(fn.params) < 2:
+        problems.append("kernel: expected the parameters (data, n)")
+        return w8, w4, isclose, nanguard, labelled, uid0
+    base[fn.params[0]] = "data"
+    base[fn.params[1]] = "n"
+    for p_ in fn.params[:2]:
+        if fn.nbind(p_):
+            problems.append(f"kernel: the parameter `{p_}` is re-bound or written to")
+    rets = {ast.unparse(n.value) for n in ast.walk(f) if isinstance(n, ast.Return) and n.value is not None}
+    if len(rets) == 1 and next(iter(rets)).isidentifier():
+        base[next(iter(rets))] = "out"
+    else:
+        problems.append(f"kernel: returns {sorted(rets)}")
+    # rows, cols
+    for st in f.body:
+        if isinstance(st, ast.Assign) and len(st.targets) == 1:
+            t, v = st.targets[0], st.value
+            if (isinstance(t, ast.Tuple) and len(t.elts) == 2 and all(isinstance(e, ast.Name) for e in t.elts)
+                    and ast.unparse(v) == f"{fn.params[0]}.shape"):
+                base[t.elts[0].id], base[t.elts[1].id] = "rows", "cols"
+            elif isinstance(t, ast.Name) and ast.unparse(v) in (f"{fn.params[0]}.shape[0]", f"{fn.params[0]}.shape[1]"):
+                base[t.id] = "rows" if ast.unparse(v).endswith("[0]") else "cols"
+    for nm in [k for k, v in base.items() if v in ("rows", "cols")]:
+        if fn.nbind(nm) != 1:
+            problems.append(f"kernel: `{nm}` is bound {fn.nbind(nm)} times")
+    passes = [st for st in f.body if isinstance(st, ast.For)]
+    if len(passes) != 2:
+        problems.append(f"expected 2 top-level loops (pass 1, pass 2), found {len(passes)}")
+    for k, outer in enumerate(passes):
+        P = f"pass {k + 1}"
+        rmap = dict(base)
+        ob = range_bound(outer.iter)
+        inner = outer.body[0] if len(outer.body) == 1 and isinstance(outer.body[0], ast.For) else None
+        ib = range_bound(inner.iter) if inner is not None else None
+        if (ob is None or inner is None or ib is None or outer.orelse or inner.orelse
+                or not isinstance(outer.target, ast.Name) or not isinstance(inner.target, ast.Name)
+                or canon(fn, ob, outer, rmap) != "rows" or canon(fn, ib, inner, rmap) != "cols"):
+            problems.append(f"{P}: not `for y in range(rows): for x in range(cols):`")
+            continue
+        rmap[outer.target.id], rmap[inner.target.id] = "y", "x"
+        for v_ in (outer.target.id, inner.target.id):
+            if fn.nbind(v_, outer) != 1:
+                problems.append(f"{P}: the loop variable `{v_}` is bound {fn.nbind(v_, outer)} times inside the pass")
+        body = inner.body
+        # the n == 8 test and the windows
+        n8 = [st for st in body if isinstance(st, ast.If) and canon(fn, st.test, st, rmap) in ("8 == n", "8 != n")]
+        if len(n8) != 1:
+            problems.append(f"{P}: expected one `if n == 8` in the cell loop, found {len(n8)}")
+            continue
+        n8 = n8[0]
+        b8, b4 = (n8.body, n8.orelse) if canon(fn, n8.test, n8, rmap) == "8 == n" else (n8.orelse, n8.body)
+        s8 = window_stores(fn, b8, rmap, problems, f"{P} n=8")
+        s4 = window_stores(fn, b4, rmap, problems, f"{P} n=4")
+        for src, role in (("data", "src_window"), ("out", "area_window")):
+            if s8[src][0] is None or s8[src][0] != s4[src][0]:
+                problems.append(f"{P}: window array of {src}: {s8[src][0]} / {s4[src][0]}")
+            else:
+                rmap[s8[src][0]] = role
+            w8.append((f"pass{k + 1}.{role}", s8[src][1]))
+            w4.append((f"pass{k + 1}.{role}", s4[src][1]))
+        # the window arrays are written nowhere else in the pass
+        inv = {v: kk for kk, v in rmap.items()}
+        in_n8 = {id(x) for x in ast.walk(n8)}
+        for st in ast.walk(outer):
+            if isinstance(st, ast.stmt) and id(st) not in in_n8 and not hasattr(st, "body"):
+                hit = fn.binds(st) & {inv.get("src_window"), inv.get("area_window")}
+                if hit - {None}:
+                    problems.append(f"{P}: window array written outside the n == 8 test: `{ast.unparse(st)}`")
+        # matches = np.where(<closeness>)[0]
+        wh = []
+        for st in body:
+            if isinstance(st, ast.Assign) and len(st.targets) == 1 and isinstance(st.targets[0], ast.Name):
+                v = st.value
+                if (isinstance(v, ast.Subscript) and isinstance(v.slice, ast.Constant) and v.slice.value == 0
+                        and isinstance(v.value, ast.Call) and ast.unparse(v.value.func) in ("np.where", "np.nonzero")
+                        and len(v.value.args) == 1 and not v.value.keywords):
+                    wh.append((st, v.value.args[0]))
+                elif (isinstance(v, ast.Call) and ast.unparse(v.func) == "np.flatnonzero" and len(v.args) == 1
+                      and not v.keywords):
+                    wh.append((st, v.args[0]))
+        if len(wh) != 1:
+            problems.append(f"{P}: expected one `m = np.where(<test>)[0]` in the cell loop, found {len(wh)}")
+            continue
+        wst, wexpr = wh[0]
+        isclose.append(canon(fn, wexpr, wst, rmap))
+        rmap[wst.targets[0].id] = "matches"
+        if fn.nbind(wst.targets[0].id, outer) != 1:
+            problems.append(f"{P}: `{wst.targets[0].id}` is bound {fn.nbind(wst.targets[0].id, outer)} times")
+        # loops over the matches
+        for st in ast.walk(inner):
+            if isinstance(st, ast.For) and isinstance(st.target, ast.Name):
+                rb = range_bound(st.iter)
+                if rb is not None and canon(fn, rb, st, rmap) == "len(matches)":
+                    rmap[st.target.id] = "j"
+        # NaN guard: `if isnan(centre): ...; continue` before the matches are computed
+        guards = [st for st in body[:body.index(wst)] if isinstance(st, ast.If) and not st.orelse
+                  and st.body and isinstance(st.body[-1], ast.Continue)]
+        for g in guards:
+            nanguard.append(canon(fn, g.test, g, rmap) + " -> " + "; ".join(canon_stmt(fn, b, rmap) for b in g.body))
+        # pass 1: the tests under which a window label is taken over
+        if k == 0:
+            for st in body[body.index(wst) + 1:]:
+                if isinstance(st, ast.If):
+                    loops = [x for x in ast.walk(st) if isinstance(x, ast.For) and isinstance(x.target, ast.Name)
+                             and rmap.get(x.target.id) == "j"]
+                    if loops:
+                        labelled.append(canon(fn, st.test, st, rmap))
+                        for lp in loops:
+                            for x in lp.body:
+                                if isinstance(x, ast.If) and any(isinstance(y, ast.Break) for y in x.body):
+                                    labelled.append(canon(fn, x.test, x, rmap))
+            # uid: `out[y, x] = u` followed by `u += 1`
+            uids = set()
+            for blk_owner in ast.walk(inner):
+                for field in ("body", "orelse"):
+                    blk = getattr(blk_owner, field, None)
+                    if not isinstance(blk, list):
+                        continue
+                    for a, b in zip(blk, blk[1:]):
+                        if (isinstance(a, ast.Assign) and len(a.targets) == 1 and isinstance(a.value, ast.Name)
+                                and canon_stmt(fn, a, dict(rmap, **{a.value.id: "uid"})) == "out[y, x] = uid"):
+                            u = a.value.id
+                            inc = (isinstance(b, ast.AugAssign) and isinstance(b.op, ast.Add) and ast.unparse(b.target) == u
+                                   and ast.unparse(b.value) == "1") or \
+                                  (isinstance(b, ast.Assign) and ast.unparse(b.targets[0]) == u
+                                   and ast.unparse(b.value) in (f"{u} + 1", f"1 + {u}"))
+                            if inc:
+                                uids.add(u)
+            if len(uids) != 1:
+                problems.append(f"{P}: the label counter is not evident ({sorted(uids)})")
+            else:
+                u = next(iter(uids))
+                # its value when pass 1 starts
+                uid0 = canon(fn, ast.Name(id=u, ctx=ast.Load()), outer, rmap)
+                if uid0.startswith("?"):
+                    problems.append(f"{P}: initial value of the label counter `{u}` is not evident")
+    return w8, w4, isclose, nanguard, labelled, uid0
+
+
+# ---------------------------------------------------------------- the wrapper
+def wrapper_facts(g, kernel, problems):
+    fn = Fn(g)
+    guard, kdata, kn, widen, kwargs = "?", "?", "?", [], []
+    calls = [n for n in ast.walk(g) if isinstance(n, ast.Call) and ast.unparse(n.func) == "_area_connectivity"]
+    if len(calls) != 1:
+        problems.append(f"regions: {len(calls)} calls of _area_connectivity")
+        return guard, kdata, kn, widen, kwargs
+    call = calls[0]
+    call_stmt = fn.innermost_stmt(call)
+    kparams = [a.arg for a in kernel.args.args] if kernel is not None else ["data", "n"]
+    bound = {}
+    for i, a in enumerate(call.args):
+        if i < len(kparams):
+            bound[kparams[i]] = a
+    for kw in call.keywords:
+        if kw.arg is None or kw.arg in bound:
+            problems.append("regions: kernel call arguments not evident")
+        else:
+            bound[kw.arg] = kw.value
+    p0 = kparams[0] if kparams else "data"
+    rmap = {p_: p_ for p_ in fn.params}
+    for p_ in fn.params:
+        if fn.nbind(p_):
+            problems.append(f"regions: the parameter `{p_}` is re-bound or written to")
+    arg0 = bound.get(p0)
+    if arg0 is None:
+        problems.append("regions: the kernel's first argument is missing")
+        return guard, kdata, kn, widen, kwargs
+    if isinstance(arg0, ast.Name) and arg0.id in fn.local and arg0.id not in fn.params:
+        # a local: first binding = what the kernel runs on; any further binding must be a conditional re-binding
+        loc = arg0.id
+        rmap[loc] = "data"
+        defs = [st for st in ast.walk(g) if isinstance(st, ast.stmt) and not hasattr(st, "body")
+                and (loc in fn._binds_here(st) or (st is not call_stmt and loc in fn.binds(st)))]
+        defs.sort(key=lambda st: (st.lineno, st.col_offset))
+        first = defs[0] if defs else None
+        if not (first is not None and isinstance(first, ast.Assign) and len(first.targets) == 1
+                and isinstance(first.targets[0], ast.Name) and fn.where.get(first, (None,))[0] is g):
+            problems.append(f"regions: first binding of `{loc}` not evident")
+        else:
+            kdata = canon(fn, first.value, first, {p_: p_ for p_ in fn.params})
+        for d in defs[1:]:
+            owner = fn.where.get(d, (None,))[0]
+            if (isinstance(d, ast.Assign) and len(d.targets) == 1 and isinstance(d.targets[0], ast.Name)
+                    and isinstance(owner, ast.If) and not owner.orelse and fn.where.get(owner, (None,))[0] is g
+                    and d.lineno < call_stmt.lineno):
+                widen.append(canon(fn, owner.test, owner, rmap) + " -> " + "; ".join(canon_stmt(fn, b, rmap) for b in owner.body))
+            else:
+                problems.append(f"regions: re-binding `{ast.unparse(d)}` of the kernel input not recognised")
+    else:
+        kdata = canon(fn, arg0, call_stmt, rmap)
+    kn = ";".join(f"{k}={canon(fn, v, call_stmt, rmap)}" for k, v in sorted(bound.items()) if k != p0)
+    # validation guard(s): `if <test>: raise ...` at the top level
+    guards = [st for st in g.body if isinstance(st, ast.If) and any(isinstance(b, ast.Raise) for b in st.body)]
+    if len(guards) == 1 and not guards[0].orelse and g.body.index(guards[0]) < min(
+            (i for i, st in enumerate(g.body) if any(n is call for n in ast.walk(st))), default=0):
+        guard = canon(fn, guards[0].test, guards[0], rmap)
+    else:
+        problems.append(f"regions: expected one validation guard before the kernel call, found {len(guards)}")
+    # the returned DataArray
+    rets = [n for n in ast.walk(g) if isinstance(n, ast.Return)]
+    if len(rets) == 1 and isinstance(rets[0].value, ast.Call) and ast.unparse(rets[0].value.func) in ("DataArray", "xr.DataArray"):
+        rc = rets[0].value
+        items = {}
+        if len(rc.args) > 1 or any(k.arg is None for k in rc.keywords):
+            problems.append("regions: DataArray arguments not evident")
+        if rc.args:
+            items["data"] = rc.args[0]
+        for kw in rc.keywords:
+            if kw.arg is not None:
+                items[kw.arg] = kw.value
+
+        def show(e):
+            # the kernel's result, directly or through a local bound once to it
+            if e is call:
+                return "out"
+            if isinstance(e, ast.Name) and e.id in fn.local:
+                d = fn.definition(e.id, rets[0])
+                if d is call or (d is not None and ast.dump(d) == ast.dump(call)):
+                    return "out"
+            return canon(fn, e, rets[0], rmap, stop=set())
+
+        kwargs = [("data", show(items["data"]))] if "data" in items else []
+        kwargs += [(k, show(items[k])) for k in sorted(items) if k != "data"]
+    else:
+        problems.append("regions: the return statement is not `return DataArray(...)`")
+    return guard, kdata, kn, widen, kwargs
 
 
 def generate(repo):
@@ -74,45 +660,24 @@ def generate(repo):
            "/-! GENERATED by harness/facts_regions.py from xrspatial/zonal.py -- do not edit. -/",
            "namespace XrsVerif.Gen", "open XrsVerif.Regions", ""]
     f = find_func(mod, "_area_connectivity")
-    w8, w4 = [], []
-    isclose, labelled, uid0 = [], [], "?"
+    w8, w4, isclose, nanguard, labelled, uid0 = [], [], [], [], [], "?"
     if f is None:
         rep["problems"].append("_area_connectivity not found")
     else:
-        loops = [st for st in f.body if isinstance(st, ast.For)]
-        if len(loops) != 2:
-            rep["problems"].append(f"expected 2 top-level loops (pass 1, pass 2), found {len(loops)}")
-        for k, loop in enumerate(loops):
-            node = find_n8_if(loop)
-            if node is None:
-                rep["problems"].append(f"pass {k + 1}: `if n == 8` not found")
-                continue
-            for (target, source) in (("src_window", "data"), ("area_window", "out")):
-                a, bad = window_of(node.body, target, source)
-                b, bad2 = window_of(node.orelse, target, source)
-                rep["problems"] += [f"pass {k + 1} {target}: {x}" for x in bad + bad2]
-                w8.append((f"pass{k + 1}.{target}", a))
-                w4.append((f"pass{k + 1}.{target}", b))
-            for n in ast.walk(loop):
-                if isinstance(n, ast.Assign) and isinstance(n.targets[0], ast.Name) and n.targets[0].id == "is_close":
-                    isclose.append(ast.unparse(n.value))
-                if isinstance(n, ast.Assign) and isinstance(n.targets[0], ast.Name) \
-                        and n.targets[0].id in ("rtol", "atol"):
-                    isclose.append(f"{n.targets[0].id}={ast.unparse(n.value)}")
-                if isinstance(n, ast.If) and any(isinstance(b, ast.Assign) and isinstance(b.targets[0], ast.Name)
-                                                 and b.targets[0].id == "assigned_value" for b in n.body):
-                    labelled.append(ast.unparse(n.test))
-        for st in f.body:
-            if isinstance(st, ast.Assign) and isinstance(st.targets[0], ast.Name) and st.targets[0].id == "uid":
-                uid0 = ast.unparse(st.value)
+        try:
+            w8, w4, isclose, nanguard, labelled, uid0 = kernel_facts(f, rep["problems"])
+        except Exception as ex:  # noqa: BLE001 -- an unforeseen shape is a problem, not a crash of every check
+            rep["problems"].append(f"kernel: {type(ex).__name__}: {ex}")
     out.append("/-- (dy, dx) of `src_window[i]` / `area_window[i]` for n == 8, per pass and array -/")
     out.append("def regionsWindows8 : List (String × List (D × D)) := [" +
                ", ".join(f"({lean_str(k)}, {lean_window(w)})" for k, w in w8) + "]")
-    out.append("/-- the same for the else branch (n == 4) -/")
+    out.append("/-- the same for the other branch (n == 4) -/")
     out.append("def regionsWindows4 : List (String × List (D × D)) := [" +
                ", ".join(f"({lean_str(k)}, {lean_window(w)})" for k, w in w4) + "]")
-    out.append("/-- the closeness test and its constants, in source order (pass 1 then pass 2) -/")
+    out.append("/-- the closeness test (normal form, constants inlined), pass 1 then pass 2 -/")
     out.append(f"def regionsIsClose : List String := {str_list(isclose)}")
+    out.append("/-- the guard on a NaN centre cell (normal form `test -> body`), pass 1 then pass 2 -/")
+    out.append(f"def regionsNanGuard : List String := {str_list(nanguard)}")
     out.append("/-- pass 1: when a matching window cell counts as already labelled -/")
     out.append(f"def regionsLabelledTest : List String := {str_list(labelled)}")
     out.append(f"def regionsUid0 : String := {lean_str(uid0)}")
@@ -122,36 +687,21 @@ def generate(repo):
     if g is None:
         rep["problems"].append("regions not found")
     else:
-        assigns = {}
-        for n in ast.walk(g):
-            if isinstance(n, ast.Assign) and len(n.targets) == 1 and isinstance(n.targets[0], ast.Name):
-                assigns.setdefault(n.targets[0].id, []).append(n)
-        for n in ast.walk(g):
-            if isinstance(n, ast.If) and any(isinstance(b, ast.Raise) for b in n.body):
-                guard = ast.unparse(n.test)
-            if isinstance(n, ast.If) and not any(isinstance(b, ast.Raise) for b in n.body):
-                widen.append(ast.unparse(n.test) + " -> " + "; ".join(ast.unparse(b) for b in n.body))
-            if isinstance(n, ast.Assign) and isinstance(n.value, ast.Call) \
-                    and ast.unparse(n.value.func) == "_area_connectivity" and len(n.value.args) == 1:
-                arg = n.value.args[0]
-                # resolve a local name to the expression it was first bound to
-                if isinstance(arg, ast.Name) and arg.id in assigns:
-                    arg = assigns[arg.id][0].value
-                kdata = ast.unparse(arg)
-                kn = ";".join(f"{k.arg}={ast.unparse(k.value)}" for k in n.value.keywords)
-            if isinstance(n, ast.Return) and isinstance(n.value, ast.Call) \
-                    and ast.unparse(n.value.func) in ("DataArray", "xr.DataArray"):
-                kwargs = [("data", ast.unparse(a)) for a in n.value.args[:1]] + \
-                         [(k.arg, ast.unparse(k.value)) for k in n.value.keywords]
-    out.append("/-- `regions`: validation guard, what the kernel is run on, and the DataArray it returns -/")
+        try:
+            guard, kdata, kn, widen, kwargs = wrapper_facts(g, f, rep["problems"])
+        except Exception as ex:  # noqa: BLE001
+            rep["problems"].append(f"regions: {type(ex).__name__}: {ex}")
+    out.append("/-- `regions`: validation guard, what the kernel is run on (and its conditional re-binding), the kernel's")
+    out.append("    other arguments, and the DataArray it returns (keywords sorted) -/")
     out.append(f"def regionsGuard : String := {lean_str(guard)}")
     out.append(f"def regionsKernelData : String := {lean_str(kdata)}")
+    out.append(f"def regionsWiden : List String := {str_list(widen)}")
     out.append(f"def regionsKernelArgs : String := {lean_str(kn)}")
     out.append("def regionsReturn : List (String × String) := [" +
                ", ".join(f"({lean_str(k)}, {lean_str(v)})" for k, v in kwargs) + "]")
     out.append("")
     out.append("end XrsVerif.Gen")
     rep["ok"] = not rep["problems"]
-    rep.update(windows8=[(k, w) for k, w in w8], windows4=[(k, w) for k, w in w4], isclose=isclose,
+    rep.update(windows8=[(k, w) for k, w in w8], windows4=[(k, w) for k, w in w4], isclose=isclose, nanguard=nanguard,
                labelled=labelled, uid0=uid0, guard=guard, kernel_data=kdata, kernel_args=kn, widen=widen, ret=kwargs)
     yield "RegionsFacts.lean", "\n".join(out) + "\n", rep
